@@ -38,6 +38,7 @@ func c17(c *Ctx) {
 	c17TrieOracle(c, cdb)
 	c17Storage(c, cdb)
 	c17Decode(c)
+	c17Sc(c, cdb)
 }
 
 // ---------------------------------------------------------------- Merkle
